@@ -80,7 +80,7 @@ Print Assumptions C11_repo_order__update.
 From Coq Require Import Strings.String.
 From BV Require Import Lib.StrLit Gen.Tables.
 Theorem C11_repo_status_templates :
-  assoc (StrLit.lit "status") VCS_SUBCOMMANDS_GIT = Some (StrLit.lit "git status --porcelain") /\
+  assoc (StrLit.lit "status") VCS_SUBCOMMANDS_GIT = Some (StrLit.lit "git status --porcelain --untracked-files=all") /\
   assoc (StrLit.lit "status") VCS_SUBCOMMANDS_HG = Some (StrLit.lit "hg status -umard").
 Proof. exact repo_status_templates. Qed.
 Print Assumptions C11_repo_status_templates.
